@@ -85,6 +85,17 @@ class Prepared(object):
                 self.varfields.append(('var', '%s\x1falias\x1fns1' % name))
                 continue
             sel = sorted({nodes[i % len(nodes)] for i in v[name]}, key=lambda n: n.order)
+            # the relative order of the attribute nodes of one element is implementation-dependent (XPath 5.3): a node-set variable holds at
+            # most one attribute per element, so that positional predicates on it ($ns2[last()]) have a defined answer
+            seen_parents = set()
+            keep = []
+            for n in sel:
+                if n.kind == 'attribute':
+                    if id(n.parent) in seen_parents:
+                        continue
+                    seen_parents.add(id(n.parent))
+                keep.append(n)
+            sel = keep
             self.vars[name] = sel
             self.varfields.append(('var', '%s\x1fns\x1f%s\x1fdoc' % (name, '\n'.join(n.key for n in sel))))
 
